@@ -37,3 +37,26 @@ Proof.
   intros v n. unfold in_range. rewrite andb_true_iff, Z.leb_le, Z.ltb_lt. tauto.
 Qed.
 Print Assumptions C15_range_test.
+
+(* FIRST_AVAILABLE = the lowest index that is available: the two selection functions all node processes
+   of the model use return the first position whose test succeeds (every earlier one fails), and nothing
+   exactly when every test fails (theories/Factory/FactoryFirst.v) *)
+From FV Require Kernel FactoryFirst.
+Theorem C15_first_available_output_is_lowest :
+  forall w es,
+  match first_can_put w es with
+  | Some e => exists a b, es = a ++ e :: b /\ e_can_put w e = true /\ (forall x, In x a -> e_can_put w x = false)
+  | None => forall x, In x es -> e_can_put w x = false
+  end.
+Proof. exact FactoryFirst.first_can_put_spec. Qed.
+Print Assumptions C15_first_available_output_is_lowest.
+
+Theorem C15_first_available_granted_is_lowest :
+  forall w toks,
+  match first_triggered w toks with
+  | Some (j, t) => exists a b, toks = a ++ t :: b /\ j = length a /\ Kernel.e_trig (Kernel.get_ev (wk w) t) = true /\
+                               (forall x, In x a -> Kernel.e_trig (Kernel.get_ev (wk w) x) = false)
+  | None => forall x, In x toks -> Kernel.e_trig (Kernel.get_ev (wk w) x) = false
+  end.
+Proof. exact FactoryFirst.first_triggered_spec. Qed.
+Print Assumptions C15_first_available_granted_is_lowest.
